@@ -22,6 +22,9 @@ def main():
         mod = importlib.import_module('mc.props.' + REGISTRY[a.pid])
         run = common.Run(a.pid, a.tier, seed)
         coverage, assumptions = getattr(mod, 'run_' + a.pid)(run)
+        # documented default arguments: a call relying on defaults equals the call that spells them out
+        from .props import defaults
+        defaults.check(run, a.pid, coverage)
         # history differential: the value of a constructor call must not depend on what was built before it
         from .props import hd
         exprs = hd.exprs_for(a.pid, a.tier)
